@@ -87,6 +87,15 @@ func H_k_enc_type() {
 	}
 	enc := e.Encode(v)
 	vAssert(len(enc) == packed, "type.sizes.len")
+	// a result stays what it is while the encoder is used again (batch encoding keeps results alive)
+	enc0 := append([]byte{}, enc...)
+	other := e.Encode(zero)
+	vAssert(vBytesEq(enc, enc0), "type.encode-result-stable")
+	allZero := true
+	for _, b := range other {
+		allZero = vAnd(allZero, b == 0)
+	}
+	vAssert(len(other) == packed && allZero, "type.encode-zero")
 	// the configured byte order reaches encoding/binary (scalars: compare with the shifts)
 	if typ <= 1 && len(enc) == packed {
 		var bits uint64
